@@ -73,12 +73,6 @@ Proof. unfold ms_verdict. rewrite (pgo_ext c1 c2 H). reflexivity. Qed.
 Lemma real_chk_del_returned orc c s k : real_chk orc (cache_del c returned_key) s k = real_chk orc c s k.
 Proof. unfold real_chk. rewrite msg_of_del_returned. reflexivity. Qed.
 
-Ltac start_tape :=
-  match goal with
-  | |- context [run_tape ?o ?c ?F ?t 0 ?s] =>
-    change (run_tape o c F t 0 s) with (run_tape o c F t (List.length (@nil byte)) s)
-  end.
-
 (* the verdict once the last script has run *)
 Definition finish (o : outcome unit) : auth_result :=
   match o with
@@ -91,6 +85,38 @@ Definition finish (o : outcome unit) : auth_result :=
   | OutOfFuel => AuthFuel
   | Unmodelled w => AuthUnmod w
   end.
+
+Section Shake.
+Variable orc : oracle.
+Variable cfg : config.
+Variable run : nat -> state -> outcome unit.
+
+(* OP_SHAKE256 n on a stack x :: s, by the answer of the oracle *)
+Lemma shake_exec fr st n tail x s :
+  data_at fr st = n :: tail -> st_stack st = x :: s -> space cfg s ->
+  interp orc cfg run OP_SHAKE256 fr st =
+    match orc PShake256 [x; [n]] with
+    | OOk [d] =>
+      if c_max_item_size cfg <? List.length d
+      then Raised ScriptExecutionError (adv fr 1) (with_stack st s)
+      else Done tt (adv fr 1) (with_stack st (d :: s))
+    | OOk _ => Unmodelled "oracle arity"
+    | OErr e => Raised e (adv fr 1) (with_stack st s)
+    end.
+Proof.
+  intros Hd Hs Hsp. unfold OP_SHAKE256, read_u8, read, get, put, prim1, prim_list, act. cbn [bind].
+  rewrite (read1 orc cfg run fr st n tail _ _ Hd). cbn [bind].
+  rewrite (get_step orc cfg run _ _ _ st x s Hs). cbn [bind].
+  rewrite prim_act_step. rewrite be1, z2b_b2z.
+  destruct (orc PShake256 [x; [n]]) as [[|d [|d' l]]|e]; cbn [bind interp]; try reflexivity.
+  cbn [interp step st_stack with_stack].
+  destruct (c_max_item_size cfg <? List.length d); [reflexivity|].
+  unfold space in Hsp. replace (c_max_items cfg <=? List.length s) with false
+    by (symmetry; apply Nat.leb_gt; lia).
+  reflexivity.
+Qed.
+
+End Shake.
 
 Section C13.
 Variable orc : oracle.
@@ -108,7 +134,7 @@ Qed.
 
 (* ================= A. single signature, for the Builders.v functions ================= *)
 
-Theorem single_sig_exact' f pk sig fl vals :
+Theorem single_sig_exact' f (pk sig : bytes) fl vals :
   2 <= c_max_items cfg ->
   List.length pk = 32 -> (List.length sig = 64 \/ List.length sig = 65) ->
   match run_auth_scripts orc cfg (S (S (S f)))
@@ -185,7 +211,7 @@ Qed.
 
 (* ================= B. single signature under a hashed key ================= *)
 
-Lemma witness2_runs f sig pk vals :
+Lemma witness2_runs f (sig pk : bytes) vals :
   2 <= c_max_items cfg ->
   List.length pk = 32 -> (List.length sig = 64 \/ List.length sig = 65) ->
   run_script orc cfg (S (S (S f))) (Builders.single_sig_witness2 sig pk) vals =
@@ -203,33 +229,6 @@ Proof.
     [|rewrite tdata_with_stack, Hd, app_nil_r; reflexivity|lia|reflexivity|unfold fits; lia
      |unfold space; simpl; lia].
   rewrite tape_end by (rewrite !tdata_with_stack, Hd; reflexivity).
-  reflexivity.
-Qed.
-
-Variable run : nat -> state -> outcome unit.
-
-(* OP_SHAKE256 n on a stack x :: s, by the answer of the oracle *)
-Lemma shake_exec fr st n tail x s :
-  data_at fr st = n :: tail -> st_stack st = x :: s -> space cfg s ->
-  interp orc cfg run OP_SHAKE256 fr st =
-    match orc PShake256 [x; [n]] with
-    | OOk [d] =>
-      if c_max_item_size cfg <? List.length d
-      then Raised ScriptExecutionError (adv fr 1) (with_stack st s)
-      else Done tt (adv fr 1) (with_stack st (d :: s))
-    | OOk _ => Unmodelled "oracle arity"
-    | OErr e => Raised e (adv fr 1) (with_stack st s)
-    end.
-Proof.
-  intros Hd Hs Hsp. unfold OP_SHAKE256, read_u8, read, get, put, prim1, prim_list, act. cbn [bind].
-  rewrite (read1 orc cfg run fr st n tail _ _ Hd). cbn [bind].
-  rewrite (get_step orc cfg run _ _ _ st x s Hs). cbn [bind].
-  rewrite prim_act_step. rewrite be1, z2b_b2z.
-  destruct (orc PShake256 [x; [n]]) as [[|d [|d' l]]|e]; cbn [bind interp]; try reflexivity.
-  cbn [interp step st_stack with_stack].
-  destruct (c_max_item_size cfg <? List.length d); [reflexivity|].
-  unfold space in Hsp. replace (c_max_items cfg <=? List.length s) with false
-    by (symmetry; apply Nat.leb_gt; lia).
   reflexivity.
 Qed.
 
@@ -261,7 +260,7 @@ Proof.
   unfold adv. cbn [fr_tid fr_ptr]. f_equal. rewrite app_length. simpl. lia.
 Qed.
 
-Theorem single_sig2_exact f pk sig h fl vals :
+Theorem single_sig2_exact f (pk sig h : bytes) fl vals :
   4 <= c_max_items cfg ->
   List.length pk = 32 -> (List.length sig = 64 \/ List.length sig = 65) -> List.length h = 20 ->
   match run_auth_scripts orc cfg (S (S (S (S (S (S f))))))
@@ -337,7 +336,7 @@ Qed.
 
 (* ================= C. multisig ================= *)
 
-Lemma multisig_witness_runs F sigs vals :
+Lemma multisig_witness_runs F (sigs : list bytes) vals :
   List.length sigs < F -> List.length sigs <= c_max_items cfg ->
   (forall s, In s sigs -> List.length s = 64 \/ List.length s = 65) ->
   run_script orc cfg F (multisig_witness sigs) vals =
@@ -363,7 +362,7 @@ Proof. intro H. rewrite be1, b2z_z2b_small by lia. unfold nat_of. apply Nat2Z.id
 (* keys pk_1 .. pk_n in the lock, signatures sig_1 .. sig_m pushed by the witness: at CHECK_MULTISIG the
    stack is pk_n .. pk_1 sig_m .. sig_1 (top first), so the greedy loop of the instruction sees the
    signatures and the keys in REVERSE order of the builder arguments *)
-Theorem multisig_lock_exact f pks sigs fl m vals :
+Theorem multisig_lock_exact f (pks sigs : list bytes) fl m vals :
   List.length pks < 256 -> b2z m = Z.of_nat (List.length sigs) ->
   List.length pks + List.length sigs <= c_max_items cfg -> 2 <= c_max_items cfg ->
   (forall k, In k pks -> List.length k = 32) ->
@@ -380,7 +379,8 @@ Theorem multisig_lock_exact f pks sigs fl m vals :
 Proof.
   intros Hn Hm Hit Hit2 Hk Hsg Hor.
   rewrite (auth_two orc cfg _ _ _ vals _ _
-             (multisig_witness_runs _ sigs vals ltac:(lia) ltac:(lia) (fun s H => proj1 (Hsg s H)))).
+             (multisig_witness_runs (S (S (List.length sigs + List.length pks + f))) sigs vals
+                ltac:(lia) ltac:(lia) (fun s H => proj1 (Hsg s H)))).
   set (st1 := with_stack (init_state cfg (multisig_witness sigs) vals) (rev sigs)).
   set (lock := Builders.multisig_lock pks fl m).
   change (fst (next_start st1 0 lock)) with 1.
@@ -396,7 +396,7 @@ Proof.
   start_tape.
   rewrite (pushes_step orc cfg pks _ 1 st2 [] [x46; fl; m; nb] (rev sigs) Hd);
     [| |exact Hs|rewrite rev_length; lia].
-  2:{ intros k Hk'. rewrite (Hk k Hk'). unfold fits. lia. }
+  2:{ intros k Hk'. unfold fits. rewrite (Hk k Hk'). split; lia. }
   set (st3 := with_stack st2 (rev pks ++ rev sigs)).
   assert (Hd3 : tdata st3 1 = ([] ++ pushes_bytes pks) ++ x46 :: [fl; m; nb]).
   { unfold st3. rewrite tdata_with_stack, Hd, <- app_assoc. reflexivity. }
@@ -428,7 +428,7 @@ Proof.
 Qed.
 
 (* the same, as an iff on the verdict *)
-Corollary multisig_lock_accepts_iff f pks sigs fl m vals :
+Corollary multisig_lock_accepts_iff f (pks sigs : list bytes) fl m vals :
   List.length pks < 256 -> b2z m = Z.of_nat (List.length sigs) ->
   List.length pks + List.length sigs <= c_max_items cfg -> 2 <= c_max_items cfg ->
   (forall k, In k pks -> List.length k = 32) ->
